@@ -1106,8 +1106,9 @@ class CompositeEnvelope:
                     outcomes[k] = o
             elif s.index is None:
                 if not s.measured:
+                    # The envelope partner is already included in the state_list
                     out = s.measure(
-                        separate_measurement=separate_measurement,
+                        separate_measurement=True,
                         destructive=destructive,
                     )
                     for k, o in out.items():
